@@ -144,5 +144,45 @@ func ComboInputs() []string {
 			}
 		}
 	}
+	// ---- E: a heredoc operator WITH an inline comment in every statement position (last of a
+	// nested list, right-hand side of | && ||, after time/coproc/!, in a function body, with the
+	// redirect on a compound command), combined with zero to two further comments before the closer
+	hd := []string{"cat <<EOF # c1\nbody\nEOF\n", "cat <<-EOF # c1\n\tbody\n\tEOF\n", "cat <<'EOF' >f # c1\nbody $x\nEOF\n", "cat <<A <<B # c1\nba\nA\nbb\nB\n", "cat <<EOF # c1\nEOF\n"}
+	more := []string{"", "# c2\n", "# c2\n\n# c3\n", "\n# c2\n"}
+	posE := []string{
+		"H", "H%sbar\n", "{\nH%s}\n", "{\n\tfoo\n\tH%s}\n", "(\nH%s)\n", "(foo; H%s)\n", "for i in 1; do\nH%sdone\n", "while a; do\n\tb\n\tH%sdone\n",
+		"if a; then\nH%sfi\n", "if a; then\n\tb\nelse\nH%sfi\n", "if H%sthen b; fi\n", "case x in\na)\nH%s;;\nesac\n", "case x in\na)\n\tfoo\n\tH%sesac\n",
+		"f() {\nH%s}\n", "foo | H%sbar\n", "foo && H%s", "foo ||\nH%s", "foo | bar | H%s", "{\nfoo | H%s}\n", "if a; then\n\tfoo && H%sfi\n",
+		"time H%s", "! H%s", "x=$(\nH%s)\n", "echo \"$(\nH%s)\" y\n", "{\nH%s} >g # c9\n", "f() {\nH%s} >g\n", "a; H%s", "foo &\nH%s",
+	}
+	for _, pe := range posE {
+		for _, h := range hd {
+			for _, m := range more {
+				s := strings.Replace(pe, "H", h, 1)
+				s = strings.Replace(s, "%s", m, 1)
+				add(s)
+			}
+		}
+	}
+	// the same positions with an inline comment but no heredoc, and comment-only bodies
+	for _, pe := range posE {
+		for _, m := range more {
+			s := strings.Replace(pe, "H", "cat f # c1\n", 1)
+			add(strings.Replace(s, "%s", m, 1))
+			s = strings.Replace(pe, "H", "# only\n", 1)
+			add(strings.Replace(s, "%s", m, 1))
+		}
+	}
+	// comments next to keywords that take a statement, and bytes the tabwriter treats specially
+	for _, s := range []string{
+		"time # c\ncmd", "time -p # c\ncmd", "time cat f # c\nx", "time cat <<EOF # c\nb\nEOF\n", "! # c\ncmd", "coproc cat f # c\nx",
+		"coproc cat <<EOF # c\nb\nEOF\n", "coproc { a; } # c\nx", "{ # c\n}", "( # c\n)",
+		"foo() { # c1\n\tbar\n} <<EOF # c2\nbody\nEOF\n", "foo() { # c1\n\tbar\n} >f # c2\n", "{ # c1\n\ta\n} <<EOF # c2\nb\nEOF\n# c3\n",
+		"foo #!/usr/bin/env bash", "foo #!/usr/bin/env bash\nbar", "exec sh \"$0\" #!/bin/sh\nx", " #!/bin/sh\nfoo", "\t#!/bin/bash\nfoo", "foo # plain\nbar",
+		"foo; bar #!/bin/sh", "{ a; } #!/bin/sh\nb", "#!/bin/sh #!/bin/sh\nfoo", "#!/bin/sh\nfoo #!/bin/sh", "x=1 #!/usr/bin/env sh\ny", "$(a) #!/bin/sh",
+		"foo # a\vb\nbar # c\fd\nbaz", "# x\vy\nfoo", "foo # tab\there\nbar # plain", "foo # a\rb\nbar",
+	} {
+		add(s)
+	}
 	return out
 }
